@@ -8,7 +8,8 @@
      or forget it at the outermost level), THEN the registry COMMIT / RELEASE boundary is reached;
    * a nested registry transaction without savepoint is a no-op unless an enclosing one is a savepoint;
    * Datastore.trash(refs) and the artifact deletion of emptyTrash swallow ordinary exceptions (ignore_errors=True);
-   * emptyTrash looks only at trash rows that still have a datastore record.
+   * emptyTrash looks only at trash rows that still have a datastore record; it deletes the records and the trash
+     rows in one registry transaction (as repaired by e615ec5).
 
    No proofs here.  Slots / governors / contents are small N; files are association lists slot -> content. *)
 From Coq Require Import NArith List Bool.
@@ -61,9 +62,9 @@ Definition up_certs f (d : db) := mkdb (ds d) (loc d) (recs d) (trash d) (tags d
 Definition up_dims f (d : db) := mkdb (ds d) (loc d) (recs d) (trash d) (tags d) (certs d) (f (dims d)).
 Definition on_cur (f : db -> db) (s : st) : st := set_cur (f (cur s)) s.
 
-(* the three repairs, switchable so that "reverting a fix breaks a theorem" can be stated *)
-Record cfg := mkcfg { fix_ptr : bool; fix_sp : bool; fix_dc : bool }.
-Definition shipped := mkcfg true true true.
+(* the four repairs, switchable so that "reverting a fix breaks a theorem" can be stated *)
+Record cfg := mkcfg { fix_ptr : bool; fix_sp : bool; fix_dc : bool; fix_et : bool }.
+Definition shipped := mkcfg true true true true.
 
 (* ------------------------------------------------------------------------------------------------------ *)
 Inductive outcome := Normal | Raised (h : bool).      (* h = true: BaseException *)
@@ -215,8 +216,12 @@ Definition do_empty_trash (c : cfg) : act :=
       let tg := filter (fun t => mem t (recs (cur s))) (trash (cur s)) in            (* trash rows JOIN records *)
       (del_files tg ;;
        (fun s1 => if match tg with [] => true | _ => false end then (s1, Normal) else
-          (with_reg false false (ev (upd (on_cur (up_recs (fun l => filter (fun k => negb (mem k tg)) l))))) ;;
-           with_reg false false (ev (upd (on_cur (up_trash (fun l => filter (fun k => negb (mem k tg)) l)))))) s1)) s)).
+          (* e615ec5: records rows and trash rows are deleted in ONE registry transaction (before: two commits) *)
+          (if fix_et c
+           then with_reg false false (ev (upd (on_cur (up_recs (fun l => filter (fun k => negb (mem k tg)) l)))) ;;
+                                      ev (upd (on_cur (up_trash (fun l => filter (fun k => negb (mem k tg)) l)))))
+           else (with_reg false false (ev (upd (on_cur (up_recs (fun l => filter (fun k => negb (mem k tg)) l))))) ;;
+                 with_reg false false (ev (upd (on_cur (up_trash (fun l => filter (fun k => negb (mem k tg)) l))))))) s1)) s)).
 
 Definition remove_ds d := upd (on_cur (fun x => up_certs (rm d) (up_tags (rm d) (up_ds (rm d) x)))).
 
